@@ -106,6 +106,10 @@ var texts = []textCase{
 	{"non-ascii", func(c byte) string { return render(tbl("é|€", "ü|z"), c, "\n", false, true) }},
 	{"five-rows", func(c byte) string { return render(tbl("h|h", "1|2", "3|4", "5|6", "7|8"), c, "\n", false, true) }},
 	{"other-sep-data", func(c byte) string { return "a;b,c\nd;e,f\n" }},
+	// a leading U+FEFF (UTF-8 byte order mark) is data like any other byte: before plain text, before a quoted field, alone
+	{"bom-plain", func(c byte) string { return "\xef\xbb\xbf" + render(tbl("name|age", "a|1"), c, "\n", false, true) }},
+	{"bom-quoted", func(c byte) string { return "\xef\xbb\xbf\"name\"" + string(c) + "age\na" + string(c) + "1\n" }},
+	{"bom-alone", func(c byte) string { return "\xef\xbb\xbf\n" + render(tbl("x|y"), c, "\n", false, true) }},
 }
 
 func longRows(n, width int, c byte, tag string) string {
